@@ -76,6 +76,43 @@ def run_mutant(m, rules, repo=None):
         shutil.rmtree(d, ignore_errors=True)
 
 
+def seeded_for(prop, rule_ids):
+    """Independently written breaking changes kept under /verif/seeded whose last evaluation
+    had this property's check report them: (name, patch path, rules that fired)."""
+    out = []
+    for mp in sorted(glob.glob(os.path.join(facts.VERIF, "seeded", "*", "meta.json"))):
+        with open(mp) as fh:
+            m = json.load(fh)
+        r = (m.get("checks") or {}).get(prop)
+        if r and r.get("exit") == 1 and r.get("rules"):
+            rs = [x for x in r["rules"] if x in rule_ids]
+            if rs:
+                out.append((m["name"], os.path.join(os.path.dirname(mp), "patch.diff"), rs))
+    return out
+
+
+def run_seeded(name, patch, rule_list, rules, prop):
+    import subprocess
+    d = scratch_copy(facts.REPO)
+    try:
+        r = subprocess.run("patch -p1 -s < %s" % patch, shell=True, cwd=d, capture_output=True, text=True)
+        if r.returncode != 0:
+            return "skipped", "patch no longer applies"
+        try:
+            prog = facts.load_program(d)
+        except facts.AnalysisBroken as e:
+            return "skipped", "does not parse: %s" % str(e)[:120]
+        ctx = report.Ctx(prog, prop, "thorough")
+        for rid in rule_list:
+            ctx.run(rid, rules[rid])
+        hits = [x for x in ctx.results if x.status == "violation"]
+        if hits:
+            return "detected", "%s %s: %s" % (hits[0].rule, hits[0].func, hits[0].construct)
+        return "missed", "rules %s stayed silent" % rule_list
+    finally:
+        shutil.rmtree(d, ignore_errors=True)
+
+
 def run_for(ctx, prop, rule_ids):
     from .props import all_rules
     rules = all_rules()
@@ -84,10 +121,19 @@ def run_for(ctx, prop, rule_ids):
     with ThreadPoolExecutor(max_workers=8) as ex:
         for m, (st, det) in zip(muts, ex.map(lambda mm: run_mutant(mm, rules), muts)):
             res[st].append("%s [%s]: %s" % (m["id"], m["rule"], det))
-    for x in res["missed"]:
+    seeded = seeded_for(prop, rule_ids)
+    sres = {"detected": [], "missed": [], "skipped": []}
+    with ThreadPoolExecutor(max_workers=8) as ex:
+        for (name, patch, rl), (st, det) in zip(seeded, ex.map(
+                lambda t: run_seeded(t[0], t[1], t[2], rules, prop), seeded)):
+            sres[st].append("%s: %s" % (name, det))
+    for x in res["missed"] + sres["missed"]:
         ctx.rule = "selftest"
         ctx.broken("seeded mutant not detected: " + x)
     return {
+        "independent_changes_applied": len(sres["detected"]) + len(sres["missed"]),
+        "independent_changes_detected": len(sres["detected"]),
+        "independent_change_reports": sres["detected"],
         "mutants_applied": len(res["detected"]) + len(res["missed"]),
         "mutants_detected": len(res["detected"]),
         "mutants_skipped": res["skipped"],
